@@ -142,7 +142,11 @@ impl<'a> Analyzer<'a> {
                 let child_info = self.visit(child)?;
                 min_size = child_info.min_size.saturating_mul(lo);
                 const_size = child_info.const_size && lo == hi;
-                hard = child_info.hard;
+                // The regex crate drops a `{0}` repeat together with any capture groups inside
+                // it, which would shift the numbering of later groups, so such a repeat is kept
+                // out of delegated patterns.
+                let drops_groups = hi == 0 && child_info.end_group > child_info.start_group;
+                hard = child_info.hard | drops_groups;
                 children.push(child_info);
             }
             Expr::Delegate { size, .. } => {
